@@ -3,7 +3,9 @@
 Literal model of `Context.cwd`, `Context._prefix_commands`, the `cd` / `prefix` context managers
 (push; body; `finally: pop`), and the command string built by `Context._sudo`.
 Strings are `List Char`.  A block program is a `Prog` in continuation style (statement, then the rest),
-with `raise` / `catch` for exceptional exits. -/
+with `raise e` / `catch` for exceptional exits of every kind `e` (incl. the non-`Exception` `BaseException`s).
+A block held open by a suspended generator and left by `close()` is the same `cd`/`pfx` constructor: `close()` throws
+`GeneratorExit` at the `yield` inside the block, the `finally` pops, and `close()` swallows the exception. -/
 namespace Inv
 
 abbrev Str := List Char
@@ -105,15 +107,21 @@ def sudoResponse : Option Str → Str
 
 /-! ## block programs -/
 
+/-- how a block is left exceptionally.  Python's `finally` runs for EVERY kind, including the `BaseException`s that
+    are not `Exception`s: `KeyboardInterrupt`, `SystemExit`, and the `GeneratorExit` thrown into a generator that is
+    closed while it is suspended inside the block; `failure` = the `Failure` raised by a failing command -/
+inductive ExcKind | exception | keyboardInterrupt | systemExit | generatorExit | failure
+  deriving DecidableEq, Repr
+
 inductive Prog
   | done
   | run (cmd : Str) (k : Prog)
   | sudo (cmd : Str) (userKw : Option (Option Str)) (envNames : List Str) (k : Prog)
   | obs (k : Prog)                          -- observe the two stacks
-  | raise                                   -- an exception is raised here
+  | raise (e : ExcKind)                     -- an exception of kind e is raised here
   | cd (path : Str) (body : Prog) (k : Prog)      -- `with c.cd(path): body` ; k
   | pfx (p : Str) (body : Prog) (k : Prog)        -- `with c.prefix(p): body` ; k
-  | catch (body : Prog) (k : Prog)                -- `try: body  except: pass` ; k
+  | catch (body : Prog) (k : Prog)                -- `try: body  except BaseException: pass` ; k
   deriving Repr
 
 inductive Ev
@@ -124,7 +132,7 @@ inductive Ev
 structure ExecOut where
   ctx : Ctx
   log : List Ev
-  raised : Bool
+  raised : Option ExcKind        -- the exception that escapes, if any
   deriving DecidableEq, Repr
 
 def pushCwd (c : Ctx) (p : Str) : Ctx := { c with cwds := c.cwds ++ [p] }
@@ -135,12 +143,13 @@ def popPrefix (c : Ctx) : Ctx := { c with prefixes := c.prefixes.dropLast }
 /-- sequencing after a block whose `finally` has already run (`ctxAfter`): an exception in the block skips
     the rest (`rest` = outcome of the rest started from `ctxAfter`) -/
 def seqOut (body : ExecOut) (ctxAfter : Ctx) (rest : ExecOut) : ExecOut :=
-  if body.raised then { ctx := ctxAfter, log := body.log, raised := true }
-  else { ctx := rest.ctx, log := body.log ++ rest.log, raised := rest.raised }
+  match body.raised with
+  | some e => { ctx := ctxAfter, log := body.log, raised := some e }
+  | none => { ctx := rest.ctx, log := body.log ++ rest.log, raised := rest.raised }
 
 def exec (s : SudoCfg) (c : Ctx) : Prog → ExecOut
-  | .done => { ctx := c, log := [], raised := false }
-  | .raise => { ctx := c, log := [], raised := true }
+  | .done => { ctx := c, log := [], raised := none }
+  | .raise e => { ctx := c, log := [], raised := some e }
   | .run cmd k =>
     let r := exec s c k
     { ctx := r.ctx, log := .ran (prefixCommands c cmd) :: r.log, raised := r.raised }
